@@ -39,7 +39,8 @@ def _cases(tier, rng):
     for _ in range(n):
         prog = progs.gen_map_program(rng, n_funcs=rng.randint(1, 3), allow_generator=(rng.random() < 0.5),
                                      sizes_pool=(1, 2, 3) if rng.random() < 0.7 else (2, 2, 3))
-        yield {"prog": prog, "load_intermediate": rng.random() < 0.6, "rerun": rng.random() < 0.25}
+        yield {"prog": prog, "load_intermediate": rng.random() < 0.6, "rerun": rng.random() < 0.25,
+               "storage": rng.choice(("file_array", "file_array", "dict"))}
     # intermediates that are produced by the pipeline itself (generator functions without mapped inputs) and consumed
     # downstream, with and without loading intermediates: such an array is a coordinate only if it may be loaded
     want, tries = (16 if tier == "quick" else 160), 0
@@ -79,7 +80,7 @@ def _ds_summary(ds):
     return out
 
 
-def _second_run_same_folder(p, prog, folder, li):
+def _second_run_same_folder(p, prog, folder, li, storage="file_array"):
     """A run folder is reused by a second run with other input values (same shapes): the dataset loaded afterwards
     belongs to the second run, and again agrees with the dataset built from its results."""
     import numpy as np
@@ -99,7 +100,7 @@ def _second_run_same_folder(p, prog, folder, li):
         else:
             inputs2[n] = f"{v}'"
     try:
-        res2 = p.map(inputs2, run_folder=folder, parallel=False, storage="file_array", **progs.map_kwargs(prog))
+        res2 = p.map(inputs2, run_folder=folder, parallel=False, storage=storage, **progs.map_kwargs(prog))
         a = _ds_summary(xarray_dataset_from_results(inputs2, res2, p, load_intermediate=li))
         b = _ds_summary(load_xarray_dataset(run_folder=folder, load_intermediate=li))
     except Exception as e:  # noqa: BLE001
@@ -122,7 +123,8 @@ def _check(case):
         progs.set_log(None)
         inputs = progs.real_inputs(prog)
         try:
-            res = p.map(inputs, run_folder=folder, parallel=False, storage="file_array", **progs.map_kwargs(prog))
+            res = p.map(inputs, run_folder=folder, parallel=False, storage=case.get("storage", "file_array"),
+                        **progs.map_kwargs(prog))
         except Exception as e:  # noqa: BLE001
             return [f"map raised {type(e).__name__}"]
         try:
@@ -219,7 +221,7 @@ def _check(case):
                                        f"computed from that input value is {progs.fz(expect)[:100]}")
                         break
         if not bad and case.get("rerun"):
-            bad += _second_run_same_folder(p, prog, folder, li)
+            bad += _second_run_same_folder(p, prog, folder, li, case.get("storage", "file_array"))
         return bad[:6]
     finally:
         shutil.rmtree(folder, ignore_errors=True)
